@@ -36,9 +36,6 @@ ENV = {
     'HAIL_CI_STORAGE_URI': 'gs://sim-ci',
     'HAIL_DOMAIN': 'hail.sim',
     'HAIL_PRODUCTION_DOMAIN': 'hail.sim',
-    'HAIL_SHOULD_PROFILE': '0',
-    'HAIL_SHOULD_CHECK_INVARIANTS': '0',
-    'HAIL_TERRA': 'false',
 }
 
 ROOTS = ['hail/python', 'gear', 'web_common', 'batch', 'ci', 'auth']
